@@ -15,7 +15,7 @@ CHECKS = {
    "TLA+ spec (Store.tla) + TLC model checking + model-based replay and TLC trace validation of the real stores", "6 (C04)"),
  "C05": ("store",
    "TLC checks that the operational collapsing design (sticky flag, window, same-kind merge fast path) equals the declarative fold for every history (S_Fold, S_Span, S_Conserve, S_CollapsedMeaning, S_FastMergeIsGeneric) for pairs of kinds/limits; generated histories are replayed on real CollapsingLowest/HighestDenseStore with every partner kind (panics are disagreements); recorded executions with N in {1,2,3,8,128,2048} are validated by TLC, including the allocated array length (layout hook) <= N; the array-level model DenseImpl.tla (extendRange/adjust/shiftCounts with Go slice-bounds checks) is checked to refine the abstract stores without out-of-bounds access (it reproduces the F3 panic when the repair is switched off) and its layout is validated against recorded layouts with the real overhead 64.",
-   TRUST + " The sketch-level accuracy clause of C05 is exercised by the sketch pipeline (C12) with collapsing stores.",
+   TRUST + " Sketch level: Gen_Sketch histories on sketches built on collapsing stores - folded content (==), every q=a/8 answer within a bin the specification allows at that rank on the folded content, clamped min/max.",
    "TLA+ spec (Store.tla operational collapsing vs declarative fold) + TLC + replay/trace validation on the real collapsing stores", "6 (C05)"),
 }
 
